@@ -192,6 +192,36 @@ def run(chk):
                 chk.violation("altered|filter-output|" + ">".join(l[0] for l in pkt.decode(fr)[-2:]),
                               "filter-mode output record %d differs from the captured bytes (%d records out, %d in)" % (k, len(out_recs), len(want)),
                               {"script": script, "frame_hex": fr.hex(), "written_hex": out_recs[k][4].hex() if k < len(out_recs) else None})
+        # ---- IEEE 802.3 frames (length field, LLC / SNAP header) in front of an IP packet, read with every $n and written
+        inner4 = pkt.ipv4(b"\x0a\0\0\1", b"\x0a\0\0\2", 17, pkt.udp(5, 6, b"snap-data"))
+        inner6 = pkt.ipv6(bytes(16), bytes(15) + b"\1", 17, pkt.udp(5, 6, b"snap-data"))
+        mac = pkt.rand_bytes(rng, 12)
+        snaps = []
+        for body, code in ((inner4, b"\x08\x00"), (inner6, b"\x86\xdd"), (b"arp-like-bytes" * 2, b"\x08\x06"), (inner4, b"\x08\x01")):
+            llc = b"\xaa\xaa\x03\x00\x00\x00" + code + body
+            for ln in (len(llc), 1500, 0, 46):
+                snaps.append(pkt.eth(mac[:6], mac[6:], ln, llc))
+        snaps.append(pkt.eth(mac[:6], mac[6:], 38, b"\x42\x42\x03" + bytes(35)))            # plain LLC (spanning tree)
+        snaps.append(pkt.eth(mac[:6], mac[6:], pkt.ET_VLAN, pkt.vlan(1, 0, 9, 60, b"\xaa\xaa\x03\x00\x00\x00\x08\x00" + inner4)))
+        sdata = pkt.pcap_file([(k + 1, k, fr) for k, fr in enumerate(snaps)])
+        for si, script in enumerate(["@ !is_error($2) || $2 == null || true\n", "@ true { $3; $2; $4; format(\"{}\", $2); }\n@ true\n", "@ $3 != null || true\n", "@ true { let a = $2; let b = $10; }\n@ true\n"]):
+            path = os.path.join(work, "snap.p2")
+            with open(path, "w") as f:
+                f.write(script)
+            rr = core.run_binary([path], stdin_data=sdata, release=(si % 2 == 1), timeout=30)
+            if rr["timeout"]:
+                chk.inconc("filter run timed out")
+                continue
+            chk.observed(("802.3-frames", si))
+            if core.crashed(rr):
+                chk.violation("filter-crash|802.3", "filter-mode reads of 802.3 frames crash the interpreter", {"script": script, "stderr": rr["err"].decode("utf-8", "replace")[-300:]})
+                continue
+            hdr, out_recs, rest = pkt.parse_pcap(rr["out"])
+            ok = hdr is not None and not rest and len(out_recs) == len(snaps) and all(r_[4] == snaps[r_[0] - 1] and r_[2] == len(r_[4]) for r_ in out_recs)
+            if not ok:
+                badk = next((r_[0] for r_ in out_recs if r_[0] - 1 < len(snaps) and r_[4] != snaps[r_[0] - 1]), None)
+                chk.violation("altered|filter-output|802.3", "802.3 / LLC / SNAP frames read with $n in filter mode (%r): %d of %d records come out, record %s differs from the captured bytes" % (
+                    script, len(out_recs), len(snaps), badk), {"script": script, "stderr": rr["err"].decode("utf-8", "replace")[-200:]})
         # ---- a write of a decoded packet that fails leaves no trace in what later writes of decoded packets produce
         src3 = os.path.join(work, "iso-src.pcap")
         frs = [pkt.rand_frame(rng, well_formed=True)[0] for _ in range(4)]
